@@ -126,6 +126,9 @@ class EncodingDB:
                     try:
                         cid2unicode[cid] = name2unicode(cast(str, x.name))
                     except (KeyError, ValueError) as e:
+                        # the code now selects a glyph without a known unicode
+                        # value; it no longer is the base encoding's character
+                        cid2unicode.pop(cid, None)
                         log.debug(str(e))
                     cid += 1
         return cid2unicode
